@@ -132,6 +132,13 @@ type finding struct {
 	Msg   string  `json:"msg"`
 }
 
+func repoRoot() string {
+	if v := os.Getenv("VERIF_REPO"); v != "" {
+		return v
+	}
+	return "/repo"
+}
+
 // crashSite extracts the first /repo frame of a panic trace: the grouping key of a crash.
 func crashSite(report string) string {
 	lines := strings.Split(report, "\n")
@@ -141,7 +148,7 @@ func crashSite(report string) string {
 	}
 	for _, l := range lines {
 		l = strings.TrimSpace(l)
-		if strings.HasPrefix(l, "/repo/") {
+		if strings.HasPrefix(l, repoRoot()+"/") {
 			if i := strings.Index(l, " "); i > 0 {
 				l = l[:i]
 			}
